@@ -36,16 +36,16 @@ theorem C05_refine_xarray {α : Type} (w : Window) (xs : List α) (ts : List Int
     selectRows (xarrayMask w ts) xs = windowRows w xs ts := by
   rw [C05_xarray_mask]; exact selectRows_spec_eq_windowRows w xs ts h
 
-/-- PandasStream, for any row index with distinct labels. -/
+/-- PandasStream, for any row index (labels may repeat). -/
 theorem C05_refine_pandas {α : Type} (w : Window) (xs : List α) (rows : List (Nat × Int))
-    (hnd : (rows.map (·.1)).Nodup) (h : xs.length = rows.length) :
+    (h : xs.length = rows.length) :
     selectRows (pandasMask w rows) xs = windowRows w xs (rows.map (·.2)) := by
-  rw [C05_pandas_mask w rows hnd]
+  rw [C05_pandas_mask w rows]
   exact selectRows_spec_eq_windowRows w xs _ (by simpa using h)
 
 /-- Consequently all front ends hand the same rows of every column to the test. -/
 theorem C05_refine_all {α : Type} (w : Window) (xs : List α) (ts : List Int) (labels : List Nat)
-    (h : xs.length = ts.length) (hl : labels.length = ts.length) (hnd : labels.Nodup) :
+    (h : xs.length = ts.length) (hl : labels.length = ts.length) :
     selectRows (numpyMask w ts) xs = selectRows (xarrayMask w ts) xs ∧
     selectRows (numpyMask w ts) xs = selectRows (pandasMask w (labels.zip ts)) xs := by
   have hz1 : (labels.zip ts).map (·.1) = labels := by
@@ -53,7 +53,7 @@ theorem C05_refine_all {α : Type} (w : Window) (xs : List α) (ts : List Int) (
   have hz2 : (labels.zip ts).map (·.2) = ts := by
     rw [List.map_snd_zip]; omega
   refine ⟨by rw [C05_refine_numpy w xs ts h, C05_refine_xarray w xs ts h], ?_⟩
-  rw [C05_refine_numpy w xs ts h, C05_refine_pandas w xs (labels.zip ts) (by rw [hz1]; exact hnd)
+  rw [C05_refine_numpy w xs ts h, C05_refine_pandas w xs (labels.zip ts)
     (by simp [List.length_zip]; omega), hz2]
 
 example : windowRows ⟨some 10, some 20⟩ ["a", "b", "c", "d", "e"] [9, 10, 15, 20, 21] = ["b", "c"] := by decide
